@@ -1363,7 +1363,10 @@ void Interpret::getInterpolants(const ASTNode& n)
     if (!config.produce_inter())
         throw ApiException("Cannot interpolate");
 
-    assert(grouping.size() >= 2);
+    if (grouping.size() < 2) {
+        notify_formatted(true, "Invalid arguments of get-interpolants command: at least two groups are needed");
+        return;
+    }
     std::vector<ipartitions_t> partitionings;
     ipartitions_t p = 0;
     // We assume that together the groupings cover all query, so we ignore the last argument, since that should contain all that was missing at that point
